@@ -437,6 +437,11 @@ func c20Gauges(p *Prog, l *Ledger) {
 			n++
 			idx++
 			key := fmt.Sprintf("%s/gauge#%d", p.Key(f), idx)
+			// a registry that forwards a registration to another registry passes on the supplier it was given
+			if prm, isP := strip(c.Args[1], false).(*ssa.Parameter); isP && f.Name() == "RegisterGauge" && prm.Parent() == f {
+				l.OK("O3", key, p.At(ins), "a registry's RegisterGauge forwards the supplier it was given, unchanged, to another registry")
+				return
+			}
 			sup, ok := strip(c.Args[1], false).(*ssa.Call)
 			if !ok || len(sup.Call.Args) != 1 {
 				l.Bad("O3", key, p.At(ins), "the gauge supplier is not built by one of core's supplier wrappers from a function value")
